@@ -5,6 +5,7 @@ package dht
 import (
 	"context"
 	"errors"
+	"time"
 
 	"github.com/libp2p/go-libp2p/core/network"
 	"github.com/libp2p/go-libp2p/core/peer"
@@ -116,6 +117,9 @@ func VfLookupRun() {
 	N, K, R := vfParam("N"), vfParam("K"), vfParam("R")
 	vfHashBits(vfParam("W"))
 	vfSchedBudget(vfParam("SWITCH"))
+	if vfParam("CANCEL") == 1 {
+		vfSchedLIFO(vfBool("scheduleMostRecentlyWokenFirst"))
+	}
 	alpha := 1 + vfChoose("alpha", 2)
 	beta := 1 + vfChoose("beta", 2)
 	e := vfNewEnv(K, alpha, beta)
@@ -148,13 +152,19 @@ func VfLookupRun() {
 	named := map[peer.ID]bool{}
 	answers := map[peer.ID][]peer.ID{}
 	calls := 0
+	inFlight := 0
 	queryFn := func(qctx context.Context, p peer.ID) ([]*peer.AddrInfo, error) {
+		inFlight++
+		defer func() { inFlight-- }()
 		if calls == cancelAt {
 			cancel()
 		}
 		calls++
 		asked[p]++
 		vfYield("rpc")
+		if vfParam("CANCEL") == 1 {
+			vfAdvance(time.Millisecond) // the RPC takes (virtual) time: the caller can run meanwhile
+		}
 		if qctx.Err() != nil {
 			failedP[p] = true
 			return nil, qctx.Err()
@@ -191,6 +201,7 @@ func VfLookupRun() {
 
 	res, err := d.runLookupWithFollowup(ctx, target, queryFn, func(*qpeerset.QueryPeerset) bool { return false })
 
+	vfAssert(inFlight == 0, "lookup/returns-only-after-every-started-query-returned")
 	vfAssert(err == nil && res != nil, "lookup/non-empty-seed-table-always-yields-a-result")
 	if res == nil {
 		return
